@@ -139,8 +139,9 @@ PROPS["C15"] = dict(
 )
 
 PROPS["C01"] = dict(
-    modules=["Hpbf.Props.C01", "Hpbf.Props.C01Opt", "Hpbf.Props.C01Dse", "Hpbf.Props.ChainTotal"],
-    theorems=t("Hpbf.Chain", "level0_all_backends same_inplace same_ir parse_irOf") +
+    modules=["Hpbf.Props.C01", "Hpbf.Props.C01Opt", "Hpbf.Props.C01Dse", "Hpbf.Props.ChainTotal", "Hpbf.Props.C01Loop"],
+    theorems=t("Hpbf.C01Loop", "ev_congr symbEvaluate_varsIn shiftVars_value reduceConst_total reduceConst_value reduceConst_varsIn reduceConst_canon splitAlong_recompose linPart_value tripCount_runs tripCount_diverges tripInv_runs tripCount_iter tripCount_iter_none tripInv_iter analyzeLoop_sound analyzeLoop_noReturn tripFacts_of_meaning constantsAmong_good constantsAmong_sound constantsAmong_sound_iter linearAmong_spec linearAmong_sound loopMotion_cases triFold_spec loopMotion_sound loopMotion_all_sound motionFold_spec finishLoop_motion_sound pendReads_possibleReads pendingSet_spec") +
+             t("Hpbf.Chain", "level0_all_backends same_inplace same_ir parse_irOf") +
              t("Hpbf.C01", "C01_parse_ok_of_tree parse_forward parse_backward parse_never_interrupted parse_prefix "
                "C01_odd_step_reaches_zero canonical_odd_loop_zeroes canonical_odd_loop_zeroes_src canonical_folded_loop_zeroes") +
              t("Hpbf.C01Dse", "eliminate_lockstep eliminate_preserves analSound_limited eliminate_preserves_limited "
@@ -181,7 +182,15 @@ PROPS["C01"] = dict(
           "limited and unlimited (eliminate_lockstep, eliminate_preserves, eliminate_preserves_limited); the final tape may "
           "differ (witness); every hypothesis is shown necessary by a witness, including that a calc with a repeated "
           "target WOULD be miscompiled (duplicate_targets_unsound; the optimizer never builds one); totality = shape "
-          "agreement (eliminate_none_iff).",
+          "agreement (eliminate_none_iff). LOOP OPTIMISATIONS of the exact optimizer model (Props/C01Loop, over repeated "
+          "simultaneous assignments with an arbitrary per-round body transformer): analyzeLoop's trip counts and flags mean "
+          "what they say (analyzeLoop_sound: RunsExactly / Diverges of the condition-value sequence), constantsAmong's "
+          "work-list fixpoint yields cells that keep their entry value in every round (constantsAmong_sound), linearAmong's "
+          "cells grow by a constant increment (linearAmong_sound), and loopMotion's before/during/after decomposition — "
+          "constant part x trip count, triangular sums, geometric forms, leftovers — reproduces the iterated assignment for "
+          "every moved variable and all of them at once (loopMotion_sound, loopMotion_all_sound, finishLoop_motion_sound), "
+          "under explicit soundness hypotheses on the state queries (compare, getConstant, getBoth) that the rebuild "
+          "invariant has to supply.",
     not_proved="optimize (levels 1..3) now HAS a complete exact Lean model (Opt.lean, 986 lines, tied on ~290 000 "
                "programs incl. every example program: 0 differences), but the behaviour preservation of its rebuild round "
                "(symbolic state tracking, substitution, loop motion plumbing) is NOT yet a theorem (proof work in progress); "
